@@ -89,6 +89,10 @@ def relevant(div, spec):
     det = div["detail"]
     if "call" not in det and "msg" in det:      # treasury divergence
         return "treasury" in spec.get("extra", [])
+    if ch.startswith("proto."):
+        return "proto" in spec.get("extra", [])
+    if ch == "build-vs-build":
+        return "crossbuild" in spec.get("extra", [])
     if ch in ("outcome", "msgs"):
         call = det.get("call", {})
         var = monitors.variant(call.get("msg")) if call.get("entry") == "execute" else call.get("entry")
@@ -164,6 +168,12 @@ def check(pid, tier, seed):
     known = load_known()
     notes = {}
 
+    # 0. regenerate the tables / registry from the current sources (translator)
+    g = subprocess.run([sys.executable, os.path.join(ROOT, "translator", "generate.py")], capture_output=True, text=True)
+    notes["translator"] = (g.stdout + g.stderr).strip()[-300:]
+    if g.returncode != 0:
+        path = write_replay(pid, "build", seed, 0, {"broken_theorem_or_stream": "translator failed on /repo's sources", "detail": notes["translator"]})
+        return finish(pid, tier, seed, t0, spec, None, None, None, [("build", path, True)], [], notes)
     # 1. builds from the current tree
     builds = spec.get("builds", ["osmosis"])
     hb = build_harness(builds)
@@ -204,6 +214,23 @@ def check(pid, tier, seed):
             s2, _, f2 = run_parallel(max(nh // 2, 8), seed + 1, profile, length, b, "impl", workers)
             all_stats.merge(s2)
             findings += f2
+    if "crossbuild" in spec.get("extra", []):
+        from vlib.runner import cross_build
+        cs, cd = cross_build(40 if quick else 1500, seed + 7, profile, 50 if quick else 120)
+        all_stats.histories += cs["histories"]
+        all_stats.calls += cs["calls"]
+        notes["cross_build"] = cs
+        divs += cd
+    if "proto" in spec.get("extra", []):
+        from vlib import protodiff
+        ps_, pd = protodiff.run(6 if quick else 200, seed)
+        all_stats.calls += ps_["evaluations"]
+        all_stats.histories += ps_["types"]
+        all_stats.signatures |= {("proto", i) for i in range(ps_["distinct"])}
+        all_stats.samples = (ps_["samples"][:2] + all_stats.samples)[:3]
+        notes["proto_differential"] = {k: v for k, v in ps_.items() if k != "samples"}
+        for x in pd:
+            divs.append({"seed": seed, "channel": "proto." + x["kind"], "detail": x, "events": []})
     if "treasury" in spec.get("extra", []):
         from vlib import treasury
         ts, td, tf = treasury.run(150 if quick else 4000, seed, 60 if quick else 120)
@@ -331,6 +358,8 @@ def finish(pid, tier, seed, t0, spec, proofs, stats, pure_stats, violations, out
 
 def cmd_setup():
     t = time.time()
+    g = subprocess.run([sys.executable, os.path.join(ROOT, "translator", "generate.py")], capture_output=True, text=True)
+    print("translator:", (g.stdout + g.stderr).strip()[-300:])
     hb = build_harness(("osmosis", "miniwasm"))
     for b, v in hb.items():
         print("harness[%s]: rc=%d %.0fs %s" % (b, v["rc"], v["wall_s"], v["tail"][-400:]))
